@@ -1,5 +1,6 @@
 import Driver.Util
 import Torf.Spec.Create
+import Torf.Model.CreateHistory
 open Lean Torf.Paths Torf.Create
 namespace Driver.C15
 
@@ -10,6 +11,9 @@ namespace Driver.C15
   `fs` = [[abs components, size | null]] (everything that exists in the scratch file system).
 
   * `c15.queries` ↦ the strings the model / the spec will hand to `casefold`, `fnmatch`, `re`
+  * `c15.history` (`cwd`, `fs`, `ops` = [{op:"path", sp: str|null} | {op:"fire", st}]) ↦ the state
+                   after every operation (model `trace`) and the fresh object for that state
+  * `c15.files`   (`items` = [{path:[…], size}], `cwd`, `fs`) ↦ model of `Torrent.files = …`
   * `c15.create`  (+ tables `cf` = [[s, casefold s]], `glob` = [[text, pattern, bool]],
                    `rex` = [[pattern, text, bool]]) ↦ model, spec, hyp (+ its conjuncts),
                    `listed` = model of `utils.list_files`
@@ -48,7 +52,7 @@ def parseCase (j : Json) : Except String Case := do
     pure (comps, sz)
   pure ⟨⟨name, files⟩, st, cwd, parse sp, order, fs⟩
 
-def Case.env (c : Case) : Env := ⟨c.cwd, c.spelling, c.order, fsProbe c.fs c.cwd⟩
+def Case.env (c : Case) : Env := ⟨c.cwd, c.spelling, c.order, fsExists c.fs c.cwd⟩
 
 def createdJson : Created → Json
   | .empty => jobj [("kind", "empty")]
@@ -59,11 +63,13 @@ def createdJson : Created → Json
 def resultJson : Except Err Created → Json
   | .ok c => createdJson c
   | .error .relativeTo => jobj [("kind", "error"), ("err", "ValueError:relative_to")]
+  | .error .commonPath => jobj [("kind", "error"), ("err", "CommonPathError")]
 
 /-- the pattern-path strings `filter_files` builds for the listed files (model) -/
 def modelPatPaths (c : Case) : List String :=
   let B := pathlibNorm c.spelling
-  let listed := listFiles id B c.order
+  -- `filter_files` only sees what `_set_files`' own empty-file rule has left
+  let listed := dropEmpty (fsExists c.fs c.cwd) (listFiles id B c.order)
   match withGetter c.cwd (abspath c.cwd B) listed with
   | .ok items =>
     let base := (commonpath (items.map (·.2))).getD c.cwd
@@ -102,34 +108,142 @@ def create (j : Json) : Except String Json := do
   let o ← parseOracles j
   let env := c.env
   let model := pathSetter o c.st env
-  -- the same model with the empty-file probe answering for the tree's own file (what a repair
-  -- of D15a alone would give); only used by the finding matchers of the other defect classes
-  let trueProbe : Comps → Option Nat := fun fp =>
-    (c.tree.files.find? fun f => f.rel == fp.drop 1).map (·.size)
-  let modelPF := pathSetter o c.st { env with probe := trueProbe }
   let spec := Spec.created o c.st c.tree
   let B := pathlibNorm c.spelling
   let listed := (listFiles o.cf B c.order).map fun it => jstr (walkStr B it.ent)
-  return jobj [("model", resultJson model), ("modelProbeFixed", resultJson modelPF),
+  return jobj [("model", resultJson model),
                ("spec", createdJson spec),
                ("modelEqSpec", jbool (model == .ok spec)),
                ("hyp", jbool (Spec.hypB c.st env c.tree)),
-               ("hypName", "cleanTree ∧ spellOK ∧ nameOK ∧ probeOK ∧ prefixOK ∧ order.isPerm"),
+               ("hypName", "cleanTree ∧ spellOK ∧ nameOK ∧ listedExist ∧ prefixOK ∧ order.isPerm"),
                ("hypParts", jobj [("cleanTree", jbool (Spec.cleanTree c.tree)),
                                   ("spellOK", jbool (Spec.spellOK env c.tree)),
                                   ("nameOK", jbool (Spec.nameOK env c.tree)),
-                                  ("probeOK", jbool (Spec.probeOK env c.tree)),
+                                  ("listedExist", jbool (Spec.listedExist env c.tree)),
                                   ("prefixOK", jbool (Spec.prefixOK c.st c.tree)),
                                   ("perm", jbool (c.order.isPerm c.tree.files))]),
-               ("probeWrong", jarr ((c.tree.files.filter fun f =>
-                    probeEmpty env.probe (c.tree.name :: f.rel) != (f.size == 0)).map fun f =>
-                    jarr (f.rel.map jstr))),
                ("listed", jarr listed)]
+
+/-- `Torrent.files = [File(path, size), …]` without patterns, in `cwd` on file system `fs`
+    (correspondence only: the `files` setter is outside C15's statement) -/
+def filesSet (j : Json) : Except String Json := do
+  let cwd ← getStrs j "cwd"
+  let fsj ← getArr j "fs"
+  let fs ← fsj.mapM fun e => do
+    let a ← e.getArr?
+    let p ← (a[0]?.getD Json.null).getArr?
+    let comps ← p.toList.mapM fun c => c.getStr?
+    let sz : Option Nat := ((a[1]?.getD Json.null).getNat?).toOption
+    pure (comps, sz)
+  let ij ← getArr j "items"
+  let items ← ij.mapM fun f => do
+    let path ← getStrs f "path"
+    let size ← getNat f "size"
+    pure (path, size)
+  let o : Oracles := ⟨id, fun _ _ => false, fun _ _ => false⟩
+  return jobj [("model", resultJson (filesSetter o ⟨[], [], [], []⟩ cwd (fsExists fs cwd) items))]
+
+/-! ### histories on one object (`c15.history`)
+
+  The history family uses a pattern fragment the driver evaluates itself (no oracle tables, the
+  strings matched depend on the whole history): ASCII names; wildcard patterns whose only special
+  character is `*`; regular expressions `lit`, `^lit`, `lit$`, `^lit$` with `lit` free of special
+  characters.  `casefold` on ASCII is `toLower`. -/
+
+def globStar : List Char → List Char → Bool
+  | [], [] => true
+  | [], _ :: _ => false
+  | '*' :: ps, [] => globStar ps []
+  | '*' :: ps, t :: ts => globStar ps (t :: ts) || globStar ('*' :: ps) ts
+  | _ :: _, [] => false
+  | p :: ps, t :: ts => p == t && globStar ps ts
+termination_by p t => p.length + t.length
+
+def isInfixL (lit : List Char) : List Char → Bool
+  | [] => lit.isEmpty
+  | t :: ts => lit.isPrefixOf (t :: ts) || isInfixL lit ts
+
+def rexSimple (pat text : String) : Bool :=
+  let p := pat.toList
+  let t := text.toList
+  let pre := p.head? == some '^'
+  let suf := p.getLast? == some '$'
+  let lit := (if pre then p.drop 1 else p)
+  let lit := if suf then lit.dropLast else lit
+  if pre && suf then lit == t
+  else if pre then lit.isPrefixOf t
+  else if suf then lit.reverse.isPrefixOf t.reverse
+  else isInfixL lit t
+
+def simpleO : Oracles :=
+  ⟨fun s => s.map Char.toLower, fun text pat => globStar pat.toList text.toList, rexSimple⟩
+
+def parseFS (j : Json) : Except String FS := do
+  let fsj ← getArr j "fs"
+  fsj.mapM fun e => do
+    let a ← e.getArr?
+    let p ← (a[0]?.getD Json.null).getArr?
+    let comps ← p.toList.mapM fun c => c.getStr?
+    let sz : Option Nat := ((a[1]?.getD Json.null).getNat?).toOption
+    pure (comps, sz)
+
+/-- what `list_files` finds under a spelled path of the scratch file system -/
+def fsListing (fs : FS) (cwd : Comps) (B : PPath) : Option (List FileEnt) :=
+  let q := normpath true (if B.abs then B.comps else cwd ++ B.comps)
+  match fs.find? (fun e => e.1 == q) with
+  | some (_, some n) => some [⟨[], n⟩]
+  | _ =>
+    if fs.any (fun e => q.isPrefixOf e.1) then
+      some (fs.filterMap fun e =>
+        match e.2 with
+        | some n => if q.isPrefixOf e.1 && e.1 != q then some ⟨e.1.drop q.length, n⟩ else none
+        | none => none)
+    else none
+
+def parseSettings (stj : Json) : Except String Settings := do
+  pure ⟨← getStrs stj "exg", ← getStrs stj "exr", ← getStrs stj "ing", ← getStrs stj "inr"⟩
+
+def hstJson (s : HSt) (err : Option HErr) : Json :=
+  jobj [("created", createdJson s.created),
+        ("path", match s.path with | some B => jstr (strOf B) | none => Json.null),
+        ("infoName", match s.infoName with | some n => jstr n | none => Json.null),
+        ("reattached", jbool s.reattached),
+        ("err", match err with
+          | none => Json.null
+          | some .read => jstr "ReadError"
+          | some (.create .relativeTo) => jstr "ValueError"
+          | some (.create .commonPath) => jstr "CommonPathError")]
+
+def history (j : Json) : Except String Json := do
+  let cwd ← getStrs j "cwd"
+  let fs ← parseFS j
+  let w : World := ⟨cwd, fsExists fs cwd, fsListing fs cwd⟩
+  let opsj ← getArr j "ops"
+  let ops ← opsj.mapM fun oj => do
+    let k ← getStr oj "op"
+    if k == "path" then
+      match (oj.getObjValAs? String "sp").toOption with
+      | some sp => pure (HOp.path (some (parse sp)))
+      | none => pure (HOp.path none)
+    else
+      let st ← parseSettings (← oj.getObjVal? "st")
+      pure (HOp.fire st)
+  let tr := trace simpleO w HSt.init ops
+  let states := tr.map fun (s, e) =>
+    let fr := match s.path with
+      | some B => let f := fresh simpleO w s.st B
+                  jobj [("created", createdJson f.created),
+                        ("infoName", match f.infoName with | some n => jstr n | none => Json.null)]
+      | none => Json.null
+    (hstJson s e).setObjVal! "fresh" fr
+  return jobj [("states", jarr states)]
 
 def handle (op : String) (j : Json) : Except String Json :=
   match op with
   | "c15.queries" => queries j
   | "c15.create" => create j
+  | "c15.files" => filesSet j
+  | "c15.history" => history j
   | _ => throw s!"unknown op {op}"
 
 end Driver.C15
